@@ -149,6 +149,7 @@ def _mk_body(sname, scfg, rig: Rig):
                  "ri_last_exc": type(ri.last_exception).__name__ if ri.last_exception is not None else "none"})
         how = "?"
         last_set = []
+        last_wait = ""
         try:
             for op in ops:
                 o = op["op"]
@@ -197,23 +198,27 @@ def _mk_body(sname, scfg, rig: Rig):
                         how = "none"
                         return None
                 elif o == "wait":
+                    # "per_input": every input event waits under a waiter id of its own, requiring the answer's k to be ITS k
+                    w_id = ("w:" + uid) if op.get("wid") == "per_input" else op.get("wid")
+                    w_reqs = {"k": int(getattr(ev, "k", 0))} if op.get("reqs") == "input" else dict(op.get("reqs") or {})
                     try:
                         r = await ctx.wait_for_event(
                             E.TYPES[op["ty"]],
                             waiter_event=(E.Ask(uid="ask:%s:%s" % (sname, uid)) if op.get("wev") else None),
-                            waiter_id=op.get("wid"),
-                            requirements=dict(op.get("reqs") or {}),
+                            waiter_id=w_id,
+                            requirements=w_reqs,
                             timeout=op.get("timeout"),
                         )
                     except asyncio.TimeoutError:
-                        rig.log({"e": "wait_timeout", "step": sname, "uid": uid, "wid": op.get("wid") or ""})
+                        rig.log({"e": "wait_timeout", "step": sname, "uid": uid, "wid": w_id or ""})
                         if op.get("on_timeout") == "stop":
                             how = "stop"
                             from workflows.events import StopEvent
                             return StopEvent(result="timeout:" + uid)
                         raise
-                    rig.log({"e": "wait_ret", "step": sname, "uid": uid, "wid": op.get("wid") or "",
-                             "want": op["ty"], "reqs": dict(op.get("reqs") or {}),
+                    last_wait = E.uid_of(r)
+                    rig.log({"e": "wait_ret", "step": sname, "uid": uid, "wid": w_id or "",
+                             "want": op["ty"], "reqs": dict(w_reqs),
                              "got_ty": E.ty_of(r), "got_uid": E.uid_of(r), "got_k": int(getattr(r, "k", 0))})
                 elif o == "fail":
                     if retry < op.get("until", 1 << 30):
@@ -221,7 +226,7 @@ def _mk_body(sname, scfg, rig: Rig):
                 elif o == "store_set":
                     # idempotent write: the key is derived from the input event
                     k = ("k_%s_%s" % (sname, uid)).replace(".", "_").replace(">", "_").replace(":", "_").replace("(", "_").replace(")", "_")
-                    await ctx.store.set(k, 1)
+                    await ctx.store.set(k, last_wait if op.get("val") == "wait" else 1)      # ("wait": WHICH answer the wait returned)
                 elif o == "store_count":
                     # NOT idempotent: one more key per execution (only for bodies that are never in flight at a quiescence
                     # point -- no gate -- so that no pause can legitimately make them run twice)
